@@ -6,6 +6,7 @@ package drivers
 import (
 	"encoding/json"
 	"fmt"
+	"os"
 	"sort"
 	"strconv"
 	"strings"
@@ -137,6 +138,11 @@ type CoreRun struct {
 	lines    []TraceLine
 	up       bool
 	diverged bool
+	// what the simulated server knows about each vBucket's current stream (to keep the environment well-formed once a run has
+	// left the specification): is it up, and the snapshot it announced last on it
+	live     map[int]bool
+	sentSnap map[int][2]int
+	notified bool
 }
 
 func wireFrom(h []WireEv, q int) []WireEv {
@@ -225,6 +231,7 @@ func NewCoreRun(sch *Schedule) *CoreRun {
 	c.skip = time.Unix(skipSecond, 500000000)
 	c.opt.SkipUntil = &c.skip
 	c.wire = make([][]WireEv, nvb)
+	c.live, c.sentSnap = map[int]bool{}, map[int][2]int{}
 	return c
 }
 
@@ -380,6 +387,7 @@ func (c *CoreRun) exec(l map[string]any) string {
 		c.r = riga.Boot(c.w, c.opt)
 		c.up = true
 		c.diverged = false
+		c.live, c.sentSnap, c.notified = map[int]bool{}, map[int][2]int{}, false
 		for vb := range c.wire {
 			c.wire[vb] = nil
 		}
@@ -433,6 +441,8 @@ func (c *CoreRun) exec(l map[string]any) string {
 			return th + " is not parked"
 		}
 		c.wire[vb-1] = wireFrom(c.slog[vb-1], from)
+		c.live[vb-1] = res.Err == nil
+		delete(c.sentSnap, vb-1)
 		c.r.S.Release(th, res)
 	case "Push":
 		vb := num(l["vb"]) - 1
@@ -449,6 +459,12 @@ func (c *CoreRun) exec(l map[string]any) string {
 			c.wire[vb] = c.wire[vb][1:]
 		} else {
 			c.slog[vb] = append(c.slog[vb], x)
+		}
+		switch x.K {
+		case "mark":
+			c.sentSnap[vb] = [2]int{x.S, x.E}
+		case "adv":
+			c.sentSnap[vb] = [2]int{x.Q, x.Q}
 		}
 		hold, _ := l["hold"].(bool)
 		c.r.Cons.SetHold(hold)
@@ -540,6 +556,7 @@ func (c *CoreRun) exec(l map[string]any) string {
 		}
 	case "CloseEmpty":
 	case "Notify":
+		c.notified = true
 		t := str(l["t"])
 		m := &membership.Model{MemberNumber: num(l["member"]), TotalMembers: num(l["total"])}
 		c.r.S.Emit(Ev{"ev": "Notify", "src": t, "member": m.MemberNumber, "total": m.TotalMembers})
@@ -612,6 +629,7 @@ func (c *CoreRun) exec(l map[string]any) string {
 			c.fo[vb] += 100 // a fail-over: the next stream of this vBucket is on a new history branch
 			c.w.SetFo(vb, c.fo[vb])
 		}
+		c.live[vb] = false
 		th := "d" + strconv.Itoa(vb+1)
 		r := c.r
 		r.S.Go(th, func() {
@@ -702,6 +720,8 @@ func (c *CoreRun) releaseAll() bool {
 					}
 				}
 				c.wire[vb-1] = wireFrom(c.slog[vb-1], q)
+				c.live[vb-1] = true
+				delete(c.sentSnap, vb-1)
 				c.r.S.Release(th, riga.OpenResult{Uuid: c.fo[vb-1]})
 			}
 		case "md.Save":
@@ -768,6 +788,41 @@ func (c *CoreRun) kill() {
 var readOnlyRun bool
 
 // afterDivergence: the labels still executed once a run has diverged from the specification (see Run)
+// wellFormed: may this environment input still be given to the real code although the run has left the specification?
+// Only when it is a legitimate input in the state the real code is in, as far as the rig can tell.
+func (c *CoreRun) wellFormed(l map[string]any) bool {
+	switch str(l["a"]) {
+	case "SaveStart", "Crash", "Scrape", "Report", "Absent":
+		return true // a user may call Save / Commit at any time, a process may die at any time, a scrape only reads, copies report
+	case "Push":
+		vb := num(l["vb"]) - 1
+		var x WireEv
+		xb, _ := json.Marshal(l["x"])
+		_ = json.Unmarshal(xb, &x)
+		if !c.live[vb] || x.Old || (x.K != "mark" && x.K != "adv" && riga.KeyOfClass[x.Key] == "" && x.K != "sys") {
+			return false
+		}
+		if x.K == "mark" || x.K == "adv" {
+			return true
+		}
+		sn, ok := c.sentSnap[vb]
+		return ok && sn[0] <= x.Q && x.Q <= sn[1] // an event inside the snapshot announced on this stream
+	case "End":
+		vb := num(l["vb"]) - 1
+		st := c.r.Stream()
+		if st == nil || !st.IsOpen() || !c.live[vb] || str(l["cause"]) == "closed" {
+			return false
+		}
+		for _, g := range c.r.S.Parked() { // nothing of a close / rebalance / re-open is in progress
+			if g == "CloseStream" || g == "rb.prelock" || g == "wait.close" || g == "wait.end" || g == "OpenStream" {
+				return false
+			}
+		}
+		return !c.notified // (no membership change was ever announced to this process: no rebalance can be under way)
+	}
+	return false
+}
+
 func afterDivergence(l map[string]any) bool {
 	if ok, has := l["ok"].(bool); has && !ok {
 		return false // an injected failure
@@ -829,7 +884,9 @@ func (c *CoreRun) Run() []TraceLine {
 		wasUp := c.up
 		var rOld *riga.Rig = c.r
 		reason := ""
-		if c.diverged && c.up && !afterDivergence(st.L) {
+		policySkip := false
+		if c.diverged && c.up && !afterDivergence(st.L) && !c.wellFormed(st.L) && os.Getenv("VERIF_CONTINUE_AFTER_DIVERGENCE") == "" {
+			policySkip = true
 			// the run has left the specification: the rest of the schedule was computed for states the real code is not in, so
 			// its environment inputs (new events, stream ends, notifications, API calls, injected failures) could break the
 			// assumptions every behaviour of the specification respects. From here on only what the library is waiting for is
@@ -840,7 +897,7 @@ func (c *CoreRun) Run() []TraceLine {
 		}
 		if reason != "" {
 			tl.Skipped = reason
-			if c.up && c.r != nil && reason != "process is down" {
+			if c.up && c.r != nil && reason != "process is down" && !policySkip {
 				// the real code is not where the schedule expects it: it no longer follows the specification. Let whatever
 				// it has pending proceed with friendly answers, so that what it does next is observed and judged
 				c.diverged = true
@@ -891,6 +948,21 @@ func (c *CoreRun) Run() []TraceLine {
 		}
 		for k := first + 1; k <= i; k++ {
 			c.lines = append(c.lines, TraceLine{Run: c.sch.ID, I: k + 1, L: c.sch.Steps[k].L, Post: tl.Post})
+		}
+	}
+	// a schedule that ends with the death of the process has no Quiesce step; if the real process lives on (the run diverged),
+	// what it has pending is completed here so that the end-of-run obligations are judged on it as well
+	if n := len(c.sch.Steps); c.up && c.r != nil && c.diverged && (n == 0 || str(c.sch.Steps[n-1].L["a"]) != "Quiesce") {
+		c.drain()
+		c.r.S.Emit(Ev{"ev": "Quiesced"})
+		tl := TraceLine{Run: c.sch.ID, I: n + 1, L: map[string]any{"a": "Quiesce", "added": true}, Evs: c.r.S.Drain(), Post: Ev{"up": c.up}}
+		if c.up {
+			tl.Evs = append(tl.Evs, c.r.StateEv())
+		}
+		c.lines = append(c.lines, tl)
+		if OnStep != nil {
+			OnStep(true, n+1, nil)
+			OnStep(false, n+1, &c.lines[len(c.lines)-1])
 		}
 	}
 	if c.r != nil {
